@@ -344,12 +344,20 @@ func (*SlidingWindow).triggerSpecificWindowLocked
   ensures still-locked: held(sw.mu) && wheld(sw.mu)
   ensures inv: swInv(sw)
 
-extern (*SlidingWindow).triggerLateUpdateLocked
+func (*SlidingWindow).triggerLateUpdateLocked
   props C02
   held sw.mu
+  requires swInv(sw) && slot != nil && slot.Start != nil && slot.End != nil
   modifies *
   ensures held(sw.mu) && wheld(sw.mu)
   ensures swInv(sw)
+  before Unlock the-re-delivered-batch-becomes-the-windows-new-snapshot: windowInfo != nil ==> len(windowInfo.snapshotData) == len(resultData) && forall(k, 0, len(resultData), windowInfo.snapshotData[k].Data == resultData[k].Data && windowInfo.snapshotData[k].Timestamp == resultData[k].Timestamp && windowInfo.snapshotData[k].Slot == slot)
+  before Unlock every-re-delivered-row-carries-the-same-interval: forall(k, 0, len(resultData), resultData[k].Slot == slot)
+  before Unlock late-rows-lie-in-the-interval: forall(k, 0, len(resultData), resultData[k].Slot == slot) && lateDataCount >= 0 && lateDataCount <= len(resultData)
+  loop 1 invariant forall(k, 0, len(resultData), resultData[k].Slot == slot) && len(resultData) == $i
+  loop 2 invariant forall(k, 0, len(resultData), resultData[k].Slot == slot)
+  loop 3 invariant forall(k, 0, len(resultData), resultData[k].Slot == slot) && 0 <= lateDataCount && lateDataCount <= len(resultData)
+  loop 4 invariant windowInfo != nil && len(windowInfo.snapshotData) == len(resultData) && forall(k, 0, $i, windowInfo.snapshotData[k].Data == resultData[k].Data && windowInfo.snapshotData[k].Timestamp == resultData[k].Timestamp && windowInfo.snapshotData[k].Slot == slot) && $s == resultData
 
 func (*SlidingWindow).handleLateData
   props C02
@@ -751,6 +759,7 @@ func (*SessionWindow).collectExpiredSessions
   ensures delivered-only-after-the-watermark-passed-its-end: forallv(k, "", old(dom(sw.sessionMap, k)) && !dom(sw.sessionMap, k) ==> currentTime >= old(*sw.sessionMap[k].slot.End))
   ensures every-ended-session-leaves-the-open-set: forallv(k, "", old(dom(sw.sessionMap, k)) && currentTime >= old(*sw.sessionMap[k].slot.End) ==> !dom(sw.sessionMap, k))
   ensures sessions-still-open-are-untouched: forallv(k, "", dom(sw.sessionMap, k) ==> old(dom(sw.sessionMap, k)) && sw.sessionMap[k] == old(sw.sessionMap[k]))
+  ensures a-delivered-session-stays-open-for-late-rows-until-its-end-plus-the-allowance: sw.config.AllowedLateness > 0 ==> forallv(k, "", old(dom(sw.sessionMap, k)) && !dom(sw.sessionMap, k) && len(old(sw.sessionMap[k]).data) > 0 ==> dom(sw.triggeredSessions, k) && sw.triggeredSessions[k].session == old(sw.sessionMap[k]) && sw.triggeredSessions[k].closeTime == old(*sw.sessionMap[k].slot.End) + sw.config.AllowedLateness)
   ensures every-result-is-the-rows-of-one-ended-session: forall(j, 0, len(result), len(result[j]) > 0 && existsv(k, "", old(dom(sw.sessionMap, k)) && !dom(sw.sessionMap, k) && seqeq(result[j], old(sw.sessionMap[k].data))))
   loop 1 invariant forall(j, 0, len(expiredKeys), dom(sw.sessionMap, expiredKeys[j]) && currentTime >= *sw.sessionMap[expiredKeys[j]].slot.End)
   loop 1 invariant forallv(k, "", $visited[k] && currentTime >= *sw.sessionMap[k].slot.End ==> exists(j, 0, len(expiredKeys), expiredKeys[j] == k))
@@ -762,6 +771,7 @@ func (*SessionWindow).collectExpiredSessions
   loop 2 invariant forall(a, 0, len($s), forall(b, 0, len($s), a != b ==> $s[a] != $s[b]))
   loop 2 invariant forallv(k, "", dom(sw.sessionMap, k) <==> old(dom(sw.sessionMap, k)) && !exists(j, 0, $i, $s[j] == k))
   loop 2 invariant forallv(k, "", dom(sw.sessionMap, k) ==> sw.sessionMap[k] == old(sw.sessionMap[k]))
+  loop 2 invariant sw.config.AllowedLateness > 0 ==> forall(j, 0, $i, len(old(sw.sessionMap[$s[j]]).data) > 0 ==> dom(sw.triggeredSessions, $s[j]) && allocated(sw.triggeredSessions[$s[j]]) && sw.triggeredSessions[$s[j]].session == old(sw.sessionMap[$s[j]]) && sw.triggeredSessions[$s[j]].closeTime == old(*sw.sessionMap[$s[j]].slot.End) + sw.config.AllowedLateness)
   loop 2 invariant forall(r, 0, len(resultsToSend), len(resultsToSend[r]) > 0 && exists(j, 0, $i, seqeq(resultsToSend[r], old(sw.sessionMap[$s[j]].data))))
 
 pred mapUnchangedS(sw) := forallv(k, "", (dom(sw.sessionMap, k) <==> old(dom(sw.sessionMap, k))) && sw.sessionMap[k] == old(sw.sessionMap[k]))
